@@ -54,6 +54,9 @@ pub enum RKind {
     Full,
     /// the complete reader over a ShapeReader without index (the .shx is optional by path too)
     FullNoIndex,
+    /// ShapeReader with its index, over a .shp source that cannot seek at all (a pipe, a FIFO: `Seek` by
+    /// type only; every seek fails): reading one record after the other needs no seek
+    ShpIndexNoSeek,
 }
 
 #[derive(Clone, Debug, Serialize, Deserialize)]
@@ -181,12 +184,14 @@ fn make_dbf(n: usize) -> Vec<u8> {
 enum Src {
     Plain(Cursor<Vec<u8>>),
     Buf(BufReader<Cursor<Vec<u8>>>),
+    NoSeek(Cursor<Vec<u8>>),
 }
 impl std::io::Read for Src {
     fn read(&mut self, b: &mut [u8]) -> std::io::Result<usize> {
         match self {
             Src::Plain(c) => c.read(b),
             Src::Buf(c) => c.read(b),
+            Src::NoSeek(c) => c.read(b),
         }
     }
 }
@@ -195,6 +200,7 @@ impl std::io::Seek for Src {
         match self {
             Src::Plain(c) => c.seek(p),
             Src::Buf(c) => c.seek(p),
+            Src::NoSeek(_) => Err(std::io::Error::new(std::io::ErrorKind::Unsupported, "Illegal seek")),
         }
     }
 }
@@ -380,6 +386,7 @@ pub fn run_history(scn: &HrScn, f: &ValidFile, dbf: &[u8], ctx: &mut Ctx) {
             RKind::ShpNoIndex => AnyReader::Shp(ShapeReader::new(src(&shp, scn.rbuf))?),
             RKind::Full => AnyReader::Full(Reader::new(ShapeReader::with_shx(src(&shp, scn.rbuf), src(&shx, scn.rbuf))?, dbase::Reader::new(src(dbf, scn.rbuf))?)),
             RKind::FullNoIndex => AnyReader::Full(Reader::new(ShapeReader::new(src(&shp, scn.rbuf))?, dbase::Reader::new(src(dbf, scn.rbuf))?)),
+            RKind::ShpIndexNoSeek => AnyReader::Shp(ShapeReader::with_shx(Src::NoSeek(Cursor::new(shp.clone())), src(&shx, scn.rbuf))?),
         })
     });
     let mut rdr = match opened {
@@ -413,7 +420,7 @@ pub fn run_history(scn: &HrScn, f: &ValidFile, dbf: &[u8], ctx: &mut Ctx) {
             }
         };
         ctx.stats.reach(&history_site(&scn.ops, oi));
-        let site = format!("{}:{}{}", history_site(&scn.ops, oi), match scn.kind { RKind::ShpIndex => "index", RKind::ShpNoIndex => "noindex", RKind::Full => "full", RKind::FullNoIndex => "full-noindex" }, if scn.layout != 0 { ":relaid" } else { "" });
+        let site = format!("{}:{}{}", history_site(&scn.ops, oi), match scn.kind { RKind::ShpIndex => "index", RKind::ShpNoIndex => "noindex", RKind::Full => "full", RKind::FullNoIndex => "full-noindex", RKind::ShpIndexNoSeek => "index-noseek" }, if scn.layout != 0 { ":relaid" } else { "" });
         match (op, obs) {
             (ROp::Count, Obs::Count(c)) => {
                 let want = if has_index { Ok(n) } else { Err(RErr::MissingIndex) };
@@ -641,6 +648,14 @@ pub fn execute(scn: &HrScn, ctx: &mut Ctx) {
     run_history(scn, &f, &dbf, ctx);
 }
 
+/// The letters that make sense for a configuration: a source that cannot seek is only iterated.
+pub fn alphabet_for(kind: RKind, n: usize) -> Vec<ROp> {
+    if kind == RKind::ShpIndexNoSeek {
+        return vec![ROp::Iter(0), ROp::Iter(1), ROp::Iter(2), ROp::Iter(255), ROp::IterNth(1), ROp::IterLast, ROp::Count];
+    }
+    alphabet(n)
+}
+
 pub fn alphabet(n: usize) -> Vec<ROp> {
     let mut a = vec![ROp::Iter(0), ROp::Iter(1), ROp::Iter(2), ROp::Iter(255)];
     for i in 0..=n {
@@ -660,7 +675,7 @@ pub fn alphabet(n: usize) -> Vec<ROp> {
 }
 
 /// The configurations swept: (reader, pairwise different sizes?, layout, number of records).
-const CONFIGS: [(RKind, bool, u8, usize); 20] = [
+const CONFIGS: [(RKind, bool, u8, usize); 22] = [
     (RKind::ShpIndex, true, 0, 3),
     (RKind::ShpNoIndex, true, 0, 3),
     (RKind::Full, true, 0, 3),
@@ -684,6 +699,9 @@ const CONFIGS: [(RKind, bool, u8, usize); 20] = [
     // slots: slack behind every record, counted by the index entry's length field
     (RKind::ShpIndex, true, 3, 3),
     (RKind::Full, false, 3, 3),
+    // a source that cannot seek
+    (RKind::ShpIndexNoSeek, true, 0, 3),
+    (RKind::ShpIndexNoSeek, false, 0, 4),
 ];
 const MAX_ALPHABET: usize = 21;
 
@@ -692,7 +710,7 @@ const MAX_ALPHABET: usize = 21;
 pub fn sweep_unit(unit: u64, max_len: usize, ctx: &mut Ctx, ctl: &mut UnitCtl) {
     let cfg = (unit as usize) / MAX_ALPHABET;
     let (kind, varied, layout, n) = CONFIGS[cfg % CONFIGS.len()];
-    let alpha = alphabet(n);
+    let alpha = alphabet_for(kind, n);
     let li = (unit as usize) % MAX_ALPHABET;
     if li >= alpha.len() {
         return;
